@@ -28,6 +28,7 @@
 //   -G     one more thread (reported spin=2: its registers are not described) that waits on its pipe; each byte written
 //          to the pipe makes it map a page (rw, filled with 0x77) right behind pattern region 0 (which has to be of
 //          kind u) and wait again: the target changes its address space between two requests
+//   -f HEX keep a file open whose path is the hex-decoded bytes (created if missing): names that are not UTF-8
 //   -L     place the shared page (register tables, counters) at the fixed low address 0x200000, below the executable
 //   -g     install a counting handler for SIGRTMIN+1 (per-thread counters in the shared page)
 //
@@ -241,7 +242,7 @@ int main(int argc, char **argv) {
   memset(sh, 0, sizeof *sh);
 
   int c;
-  while ((c = getopt(argc, argv, "t:s:n:o:S:r:m:M:F:d:gw:D:ZV:LG")) != -1) {
+  while ((c = getopt(argc, argv, "t:s:n:o:S:r:m:M:F:d:gw:D:ZV:LGf:")) != -1) {
     switch (c) {
       case 't': nblock = atoi(optarg); break;
       case 's': nspin = atoi(optarg); break;
@@ -326,6 +327,8 @@ int main(int argc, char **argv) {
         char path[512];
         int pl = unhex(sp, path); path[pl] = 0;
         int del = strchr(bar1 + 1, 'd') != NULL;
+        int clobber = strchr(bar1 + 1, 'z') != NULL;    // overwrite the first 16 bytes of the loaded image (the file stays intact)
+        int first_pr = -1;
         // total pages
         uint64_t total = 0;
         { char *t = strdup(bar2 + 1); for (char *q = strtok(t, ","); q; q = strtok(NULL, ",")) {
@@ -351,9 +354,15 @@ int main(int argc, char **argv) {
           else if (!strcmp(prot, "x")) pr = PROT_EXEC;
           else if (!strcmp(prot, "rwx")) pr = PROT_READ | PROT_WRITE | PROT_EXEC;
           if (mmap(at, np * page, pr, MAP_PRIVATE | MAP_FIXED, fd, off) == MAP_FAILED) { perror("mmap module"); return 2; }
+          if (first_pr < 0) first_pr = pr;
           at += np * page;
         }
         close(fd);
+        if (clobber && first_pr >= 0) {
+          mprotect(base, page, PROT_READ | PROT_WRITE);
+          memset(base, 0, 16);
+          mprotect(base, page, first_pr);
+        }
         munmap(base + total * page, page);      // the hole after the module
         if (del) unlink(path);
         lmod_addr[nlmods] = (uint64_t)(uintptr_t)base; lmod_pages[nlmods] = total; nlmods++;
@@ -361,6 +370,14 @@ int main(int argc, char **argv) {
         break;
       }
       case 'F': nfds = atoi(optarg); break;
+      case 'f': {
+        char path[512]; size_t n = strlen(optarg) / 2, k;
+        if (n >= sizeof path) n = sizeof path - 1;
+        for (k = 0; k < n; k++) { unsigned v = 0; sscanf(optarg + 2 * k, "%2x", &v); path[k] = (char)v; }
+        path[n] = 0;
+        (void)open(path, O_CREAT | O_RDWR, 0600);   // stays open
+        break;
+      }
       case 'd': ndso = atoi(optarg); break;
       case 'g': want_sig = 1; break;
       case 'Z': leader_exits = 1; break;
